@@ -145,7 +145,8 @@ def cidr_involved(lines):
                 continue
             try:
                 ipaddress.ip_network(a)
-                return True
+                if '/' not in a:
+                    return True     # a bare address atom
             except ValueError:
                 pass
     return False
@@ -166,7 +167,9 @@ def kh_worker(job):
         numeric = cidr_involved(lines)
         for host, addr, port in qs:
             if numeric and port == 2222:
-                continue        # CIDR / numeric address patterns with a non-default port: not documented, not compared
+                # a bare numeric address as a pattern with a non-default port: not documented (exact and pattern
+                # lines differ), not compared; address ranges (a.b.c.d/n) are compared for every port
+                continue
             want = model_lookup(lines, host, addr, port)
             try:
                 r = kh.match(host, addr, port if port != 22 else None)
